@@ -67,11 +67,15 @@ func replaceSuffixes(inputLines *bytes.Buffer, suffixReplacements map[string]str
 	for scanner.Scan() {
 		entry := scanner.Text()
 		if !skipRegex.MatchString(entry) {
-			for match, replacement := range suffixReplacements {
+			for _, match := range sortedKeys(suffixReplacements) {
+				replacement := suffixReplacements[match]
 				var found bool
 				entry, found = strings.CutSuffix(entry, match)
-				if found && replacement != `""` {
-					entry += replacement
+				if found {
+					if replacement != `""` {
+						entry += replacement
+					}
+					break
 				}
 			}
 		}
@@ -79,6 +83,22 @@ func replaceSuffixes(inputLines *bytes.Buffer, suffixReplacements map[string]str
 		sb.WriteRune('\n')
 	}
 	return sb.String(), nil
+}
+
+// sortedKeys returns the keys of the map, longest first, so that replacements
+// are applied in a deterministic order.
+func sortedKeys(m map[string]string) []string {
+	keys := make([]string, 0, len(m))
+	for key := range m {
+		keys = append(keys, key)
+	}
+	sort.Slice(keys, func(i, j int) bool {
+		if len(keys[i]) != len(keys[j]) {
+			return len(keys[i]) > len(keys[j])
+		}
+		return keys[i] < keys[j]
+	})
+	return keys
 }
 
 func removeExclusions(parser *Parser, excludeFileNames []string, includeMap map[string]inclusionLine, definitions map[string]string) {
